@@ -54,9 +54,9 @@ Print Assumptions C11_one_transpose_suffices.
 
 (* unflatten restores the member axes exactly, and the data *)
 Theorem C11_unflatten_flatten : forall names ins a r,
-  wf_shape a -> Forall (fun ax => amem ax = []) (axes a) ->
+  wf_shape a -> NoDup (dims a) -> Forall (fun ax => amem ax = []) (axes a) ->
   ins + List.length names <= List.length (axes a) -> names <> [] ->
-  group_at names ins a = Ok r -> unflatten r = a.
+  group_at names ins a = Ok r -> unflatten r = Ok a.
 Proof. exact unflatten_group_at. Qed.
 Print Assumptions C11_unflatten_flatten.
 
@@ -66,6 +66,6 @@ Definition ex_a : darr :=
 Example C11_nonvacuous :
   (exists r, flatten [ByName "z"; ByName "x"] false None ex_a = Ok r /\ dims r = ["y"; "z,x"]%string /\
      alab (nth 1 (axes r) dax0) = [LTup [ANum (qz 1 2); ANum (qz 1 1)]; LTup [ANum (qz 1 2); ANum (qz 2 1)]] /\
-     dat (vals r) = [N_ 0; N_ 3; N_ 1; N_ 4; N_ 2; N_ 5] /\ unflatten r = (match transpose [ByName "y"; ByName "z"; ByName "x"] ex_a with Ok t => t | Err _ => ex_a end)) /\
+     dat (vals r) = [N_ 0; N_ 3; N_ 1; N_ 4; N_ 2; N_ 5] /\ unflatten r = transpose [ByName "y"; ByName "z"; ByName "x"] ex_a) /\
   (exists r, reshape ["y,x"; "z"]%string ex_a = Ok r /\ dims r = ["y,x"; "z"]%string).
 Proof. split; eexists; repeat split; reflexivity. Qed.
